@@ -20,10 +20,13 @@ def run(chk):
     if chk.quick:
         ts = list(range(1, 131))
         jobs = [(rnd.choice(ks_small), t) for t in ts] + [(101, 24), (257, 33), (1000, 8), (10, 191), (12, 256), (7, 257)]
+        # large symbols (projected byte positions): powers of two, page multiples, the largest sizes
+        jobs += [(5, 1024), (3, 4096), (4, 8192), (3, 16384), (2, 20480), (3, 32768), (2, 61440), (2, 65535), (3, 65528), (4, 16385), (6, 1500), (9, 9000)]
     else:
         ts = list(range(1, 301))
         jobs = [(rnd.choice(ks_small), t) for t in ts] + [(rnd.choice([60, 101, 150]), t) for t in range(1, 140, 3)]
         jobs += [(257, 33), (1000, 8), (1000, 65), (2000, 17), (5000, 4), (12, 1024), (7, 1500)]
+        jobs += [(rnd.choice([2, 3, 5, 10]), t) for t in list(range(4096, 65536, 4096)) + [65535, 65528, 16385, 40000, 1024, 2048, 9000, 12345]]
     nchunks = 10
     chunks = [jobs[i::nchunks] for i in range(nchunks)]
     traces = []
